@@ -77,8 +77,9 @@ L2_TABLE = {
                                                   "free list of a published slab belongs to its bucket"),
     ("frg::slab_pool::slab_frame", "num_reserved"): ("all", ("any", "bucket_mutex"),
                                                      "reservation count of a published slab belongs to its bucket"),
-    ("frg::slab_pool", "_usedPages"): ("write", ("abs", ("this", "_tree_mutex")),
-                                       "page accounting is updated under the tree mutex"),
+    ("frg::slab_pool", "_usedPages"): ("all", ("abs", ("this", "_tree_mutex")),
+                                       "page accounting is read and updated under the tree mutex (a plain size_t: an unlocked "
+                                       "read races with the updates)"),
     ("frg::slab_pool", "_frame_tree"): ("all", ("abs", ("this", "_tree_mutex")),
                                         "frame tree (FRG_SLAB_TRACK_REGIONS) under the tree mutex"),
 }
